@@ -105,59 +105,35 @@ def silenced_by(item):
 
 
 def noise_contexts(ctx, ex, fn, where):
-    import ast
+    """Every division by a data value and every product of two data values that dea3 performs (in its own body or in a
+    helper it calls) must run while the floating-point warnings divide / over / invalid are silenced.  Judged on the
+    operations of an abstract run together with the warning state at that moment, not on the layout of the source."""
     rep = ctx.rep
+    found, leaks = [], {}
 
-    def is_data(node):
-        """an operand that is neither a literal nor a module constant (upper case name)"""
-        if isinstance(node, ast.Constant):
-            return False
-        if isinstance(node, ast.Name) and node.id.lstrip('_').isupper():
-            return False
-        if isinstance(node, ast.UnaryOp):
-            return is_data(node.operand)
-        return True
+    def is_data(v):
+        return isinstance(v, (Poly, Rat, Unk, Choice)) and ndarr.concrete_real(v) is None if not isinstance(v, (Unk, Choice)) else True
 
-    def noisy(stmt):
-        out = []
-        for n in ast.walk(stmt):
-            if isinstance(n, ast.BinOp) and isinstance(n.op, ast.Div) and is_data(n.right):
-                out.append(ast.unparse(n))
-            elif isinstance(n, ast.BinOp) and isinstance(n.op, ast.Mult) and is_data(n.left) and is_data(n.right):
-                out.append(ast.unparse(n))
-        return out
-    found, leaks = [], []
+    for label, args in (('scalars', [Poly.sym('e%d' % k) for k in range(3)]),
+                        ('arrays', [Arr((2,), [Poly.sym('e%d_%d' % (k, t)) for t in range(2)]) for k in range(3)])):
+        I, models = make(ctx.repo)
 
-    def walk(stmts, silenced):
-        for st in stmts:
-            if isinstance(st, ast.With):
-                now = set(silenced)
-                for item in st.items:
-                    kinds, needs_filter = silenced_by(item)
-                    now |= kinds
-                    if needs_filter and any(isinstance(c, ast.Expr) and isinstance(c.value, ast.Call) and
-                                            ast.unparse(c.value.func).endswith('simplefilter') and c.value.args and
-                                            isinstance(c.value.args[0], ast.Constant) and c.value.args[0].value == 'ignore'
-                                            for c in st.body):
-                        now |= {'divide', 'over', 'under', 'invalid'}
-                walk(st.body, now)
-                continue
-            if isinstance(st, (ast.If, ast.For, ast.While, ast.Try)):
-                for blk in (getattr(st, 'body', []), getattr(st, 'orelse', []), getattr(st, 'finalbody', [])):
-                    walk(blk, silenced)
-                for h in getattr(st, 'handlers', []):
-                    walk(h.body, silenced)
-                continue
-            ops = noisy(st)
-            if ops:
-                found.extend(ops)
-                missing = NEEDED_KINDS - silenced
+        def hook(kind, x, y, I=I, models=models):
+            if (kind == 'div' and is_data(y)) or (kind == 'mul' and is_data(x) and is_data(y)):
+                at = I.where()
+                found.append(at)
+                missing = NEEDED_KINDS - models.fp_silenced[-1]
                 if missing:
-                    leaks.append({'statement': ast.unparse(st)[:80], 'operations': ops[:2], 'not_silenced': sorted(missing)})
-    walk(fn.body, set())
+                    leaks.setdefault(at, {'operation': 'division' if kind == 'div' else 'product', 'at': at,
+                                          'not_silenced': sorted(missing)})
+        ndarr.OP_HOOK = hook
+        try:
+            I.get_global('extrapolation', 'dea3')(*args)
+        finally:
+            ndarr.OP_HOOK = None
     rep.check(bool(found) and not leaks, 'R-NORAISE', 'extrapolation.dea3', where,
-              {'noisy_operations': found[:6], 'outside_a_silencing_context': leaks[:3]},
-              'every such statement runs with divide, over and invalid silenced', 'floating-point noise', key='noise context')
+              {'noisy_operations': len(found), 'sites': sorted(set(found))[:6], 'outside_a_silencing_context': list(leaks.values())[:3]},
+              'every such operation runs with divide, over and invalid silenced', 'floating-point noise', key='noise context')
 
 
 def run(ctx):
